@@ -49,6 +49,28 @@ Section Proofs.
     - rewrite Hn. reflexivity.
   Qed.
 
+  (* FieldMatcher{Name, Create}: an absent field is created with the value (put-get), a present one is returned
+     and nothing changes (get-put) *)
+  Lemma field_matcher_create_absent name c kvs :
+    name <> "" -> is_null c = false -> find_field name kvs = None ->
+    field_matcher nonstr name None (Some c) (Map kvs) =
+      Ok (Map (kvs ++ [(name, quote11 nonstr c)]), Some (quote11 nonstr c)) /\
+    fm_get nonstr name (Map (kvs ++ [(name, quote11 nonstr c)])) =
+      Ok (Map (kvs ++ [(name, quote11 nonstr c)]), Some (quote11 nonstr c)).
+  Proof.
+    intros Hn Hc F. apply String.eqb_neq in Hn. split.
+    - unfold field_matcher. cbn [is_null]. rewrite Hn, F. unfold set_field_r, set_field.
+      rewrite Hc. cbn. rewrite F. cbn. now rewrite (find_field_app_same _ _ _ F).
+    - unfold fm_get, field_matcher. cbn [is_null]. rewrite Hn. now rewrite (find_field_app_same _ _ _ F).
+  Qed.
+
+  Lemma field_matcher_create_present name c kvs f :
+    name <> "" -> find_field name kvs = Some f ->
+    field_matcher nonstr name None (Some c) (Map kvs) = Ok (Map kvs, Some f).
+  Proof.
+    intros Hn F. apply String.eqb_neq in Hn. unfold field_matcher. cbn [is_null]. now rewrite Hn, F.
+  Qed.
+
   (* ---------- ElementMatcher with one key is the path part [nm=v] ---------- *)
   Lemma em_elem_single nm v e :
     nm <> "" -> (is_map e || is_null e) = true ->
